@@ -1,4 +1,6 @@
 """C15  No input line can kill or wedge the engine; quit and end-of-input end it  (DESIGN 3, C15)."""
+import os
+
 from . import engine, mir, bounds
 from . import common as C
 from .mir import expr_str, walk, callee_is, const_int, op_place, strip_generics
@@ -660,6 +662,63 @@ RULES = [("scope", rule_scope), ("index", rule_index), ("arith", rule_arith), ("
          ("errors-continue", rule_errors_continue)]
 
 
+CLIPPY_LINTS = ("indexing_slicing", "unwrap_used", "expect_used", "panic", "unreachable", "unimplemented", "todo", "exit")
+
+
+def clippy_cross_reference():
+    """Thorough tier (iii): an independent inventory of panic-capable sites (clippy's opt-in restriction lints, run on
+    /repo's current tree) must be a subset of the sites this audit enumerated, by file and line, inside the input layer."""
+    import json as _json
+    import shutil
+    import subprocess
+    import tempfile
+    from . import facts as F, mir as M
+    tmp = tempfile.mkdtemp(prefix="rce-clippy-")
+    insts = []
+    cov = {}
+    try:
+        env = dict(os.environ, CARGO_TARGET_DIR=os.path.join(tmp, "target"), CARGO_NET_OFFLINE="true")
+        cmd = ["cargo", "+nightly", "clippy", "--offline", "--bin", F.CRATE, "--message-format=json", "--", "-A", "clippy::all", "-A", "clippy::pedantic", "-A", "clippy::nursery"]
+        for l in CLIPPY_LINTS:
+            cmd += ["-W", "clippy::" + l]
+        r = subprocess.run(cmd, cwd=F.REPO, env=env, capture_output=True, text=True)
+        sites = set()
+        for line in r.stdout.splitlines():
+            try:
+                m = _json.loads(line)
+            except ValueError:
+                continue
+            if m.get("reason") != "compiler-message":
+                continue
+            d = m["message"]
+            code = (d.get("code") or {}).get("code") or ""
+            if not code.startswith("clippy::") or code.split("::")[1] not in CLIPPY_LINTS:
+                continue
+            for sp in d.get("spans", []):
+                if sp.get("is_primary") and sp["file_name"] in SCOPE_FILES:
+                    sites.add((code.split("::")[1], sp["file_name"], sp["line_start"]))
+        ran = r.returncode == 0
+        facts, meta = F.load()
+        ix = M.Index(facts)
+        ctx = engine.run_rules(PROP, [(n, f) for n, f in RULES if n in ("index", "arith", "no-assert-on-input", "unwrap")], ix, "dev")
+        audited = set()
+        for i in ctx.insts:
+            if ":" in (i.where or ""):
+                f_, ln = i.where.rsplit(":", 1)
+                if ln.isdigit():
+                    audited.add((f_, int(ln)))
+        # test modules are not part of the bin target; everything clippy reports here is production code
+        missing = sorted(s for s in sites if (s[1], s[2]) not in audited)
+        cov = {"clippy_cross_reference": {"ran": ran, "lints": list(CLIPPY_LINTS), "sites_in_input_layer": len(sites), "audited_lines": len(audited), "unaudited": [list(m) for m in missing]}}
+        inst = engine.Inst("cross-ref", "%s:cross-ref:clippy-inventory-is-covered" % PROP, ran and not missing,
+                           "all %d panic-capable sites clippy lists in the input layer (%s) are among the %d lines this audit enumerated" % (len(sites), ", ".join(CLIPPY_LINTS[:5]), len(audited)) if ran and not missing else
+                           ("clippy did not run" if not ran else "clippy lists panic-capable site(s) in the input layer that the audit did not enumerate: %s" % missing))
+        insts.append(inst)
+    finally:
+        shutil.rmtree(tmp, ignore_errors=True)
+    return insts, cov
+
+
 def run(tier):
     return engine.main(
         PROP, "no input line kills or wedges the engine", RULES, "other",
@@ -672,4 +731,4 @@ def run(tier):
                      "or wedges the main thread within this layer. Does not decide: panics inside the board layer for syntactically valid but chess-illegal FENs (assumed valid by the statement), stdout failures."),
         assumptions=["FEN arguments are valid FEN (statement)", "slice lengths are <= isize::MAX", "println!/eprintln! do not fail (stdout/stderr stay open)",
                      "std functions outside the may-panic list do not panic for any argument value (list in rules/c15.py)"],
-        tier=tier)
+        tier=tier, thorough_hook=clippy_cross_reference)
